@@ -135,13 +135,13 @@ pub fn hist_cfg(id: &str, thorough: bool) -> Option<HistCfg> {
         "C11" => HistCfg {
             id: "C11",
             on: vec!["C11"],
-            mix: Mix { rich_info: true, commit: 7, meldrefresh: 6, meld: 3, filecopy: 3, ..base },
+            mix: Mix { rich_info: true, commit: 7, meldrefresh: 6, meld: 3, filecopy: 3, foreign: 2, ..base },
             max_len: len(50, 120),
             n_min: 2,
             n_max: 4,
             with_fin: true,
             nontrivial: |k| c(k, "c11_rich_info_blocks") > 0 && c(k, "melds_copying_items") > 0,
-            rule: "history with rich commit metadata; after every step every item on every replica is checked for name = SHA-256(bytes) (+ block index), storage growth only, no attempted overwrite with different bytes, equal bytes wherever held; non-trivial = blocks with non-trivial metadata were melded",
+            rule: "history with rich commit metadata; after every step every item on every replica is checked for name = SHA-256(bytes) (+ block index), storage growth only, no attempted overwrite with different bytes, equal bytes wherever held; files that are neither block nor pack (7 names, 0-5000 bytes) appear in storages and are carried along by meld: they are exempt from the naming rule but must arrive byte-identical and are never rewritten; non-trivial = blocks with non-trivial metadata were melded",
         },
         "C12" => HistCfg {
             id: "C12",
@@ -221,6 +221,7 @@ pub fn fin_plan(n_max: u8) -> BoxedStrategy<FinPlan> {
         mergecommit: 0,
         churn: 0,
         faultycommit: 0,
+        foreign: 0,
         rich: false,
         rich_info: false,
     };
